@@ -13,10 +13,10 @@ HARNESSES = [
           '_ZNK16CPPAttributeList13has_attributeERKNSt7__cxx1112basic_stringIcSt11char_traitsIcESaIcEEE'],
   'skip_ctors': ['functionRemap.cxx', 'parameterRemap.cxx', 'interrogateBuilder.cxx', 'interrogateDatabase.cxx', 'cppAttributeList.cxx'],
   'desc': 'FunctionRemap::make_wrapper_entry: the stored InterrogateFunctionWrapper against the remap it was made from',
-  'domain': '0..NPMAX parameters (count enumerated), each with symbolic has_name / default value / atomic-string remap / name '
+  'domain': '0..NPMAX parameters (count enumerated; comment present for odd counts), each with symbolic has_name / default value / atomic-string remap / name '
             'character; symbolic has_this, void_return, extension, flags word, managed return + destructor index, -fnames, '
             'deprecated attribute, next database index, function index, wrapper and unique name characters, attached comment '
-            '(none, or one non-blank byte with optional leading/trailing blank)',
+            '(none, or the text " x\\n")',
   'oracle': 'parameter i has name and type of parameter i (injective type numbering); is_this iff i==0 and has_this; '
             'is_optional iff default value; has_return iff not void; caller_manages iff managed; destructor only if managed; '
             'role flags truthful; comment = trimmed attached comment; stored once under the returned fresh index',
